@@ -40,7 +40,7 @@ def prepare(sc: Scratch) -> dict:
         "pkg_dir": sc.repo / "runtime" / "pavex",
         "target_dir": CACHE / "target-pavex",
         "specs": specs,
-        "jobs": {"quick": 10, "thorough": 8},
+        "jobs": {"quick": 6, "thorough": 6},
         "rewrites": {"appended_harness_module": TARGET_REL, "px_workspace_hack": "hakari section emptied"},
         "assumptions": ASSUMPTIONS,
         "evidence_extra": {
